@@ -43,6 +43,14 @@ func init() {
 	gens["C18"] = genC18
 }
 
+func strBytes(s string) []int {
+	out := make([]int, len(s))
+	for i := range s {
+		out[i] = int(s[i])
+	}
+	return out
+}
+
 func tokBytes(t Tok) []byte {
 	b := make([]byte, len(t.Arr))
 	for i, e := range t.Arr {
@@ -220,6 +228,64 @@ func execDot(a []Tok) string {
 			labels[i] = string(tokBytes(e))
 		}
 		d.Label = func(n int) string { return labels[n] }
+	}
+	if len(a) > 3 {
+		// dot g name labels nodeAttrs edgeAttrs: attribute lists per node / per edge ([name,kind,value] with kind
+		// s = string, i = int, l = DotLiteral). The slices the callbacks hand out are views with spare capacity
+		// behind them (filled with a sentinel): they belong to the caller and must come back untouched.
+		sentinel := graphout.DotAttr{Name: "\x00guard", Val: -1}
+		mk := func(t Tok) []graphout.DotAttr {
+			buf := make([]graphout.DotAttr, len(t.Arr), len(t.Arr)+2)
+			for i, e := range t.Arr {
+				name := string(tokBytes(e.Arr[0]))
+				switch e.Arr[1].Atom {
+				case "s":
+					buf[i] = graphout.DotAttr{Name: name, Val: string(tokBytes(e.Arr[2]))}
+				case "i":
+					buf[i] = graphout.DotAttr{Name: name, Val: e.Arr[2].Int()}
+				default:
+					buf[i] = graphout.DotAttr{Name: name, Val: graphout.DotLiteral(tokBytes(e.Arr[2]))}
+				}
+			}
+			full := buf[:cap(buf)]
+			for i := len(buf); i < len(full); i++ {
+				full[i] = sentinel
+			}
+			return buf
+		}
+		var handed [][]graphout.DotAttr
+		var copies [][]graphout.DotAttr
+		hand := func(v []graphout.DotAttr) []graphout.DotAttr {
+			handed = append(handed, v)
+			copies = append(copies, append([]graphout.DotAttr(nil), v[:cap(v)]...))
+			return v
+		}
+		if a[3].IsArr {
+			na := make([][]graphout.DotAttr, len(a[3].Arr))
+			for i, t := range a[3].Arr {
+				na[i] = mk(t)
+			}
+			d.NodeAttrs = func(n int) []graphout.DotAttr { return hand(na[n]) }
+		}
+		if a[4].IsArr {
+			ea := make([][][]graphout.DotAttr, len(a[4].Arr))
+			for i, t := range a[4].Arr {
+				for _, e := range t.Arr {
+					ea[i] = append(ea[i], mk(e))
+				}
+			}
+			d.EdgeAttrs = func(n, e int) []graphout.DotAttr { return hand(ea[n][e]) }
+		}
+		out := d.Sprint(g)
+		for k, v := range handed {
+			full := v[:cap(v)]
+			for i := range full {
+				if full[i] != copies[k][i] {
+					panic("the library wrote past its contract: it changed an attribute list returned by the caller's callback")
+				}
+			}
+		}
+		return bytesTok(out)
 	}
 	return bytesTok(d.Sprint(g))
 }
@@ -464,6 +530,11 @@ func genC18(w *bufio.Writer, tier string, rng *rand.Rand) {
 			rn := perm[:rng.Intn(n)]
 			if rng.Float64() < 0.3 && len(rn) > 0 {
 				rn = append(rn, rn[0]) // duplicates are harmless for Remove
+				if rng.Intn(2) == 0 { // ... however many: a removal list longer than the graph
+					for len(rn) <= n+rng.Intn(n+2) {
+						rn = append(rn, rn[rng.Intn(len(rn))])
+					}
+				}
 			}
 			var es []string
 			for u := range g {
@@ -507,6 +578,50 @@ func genC18(w *bufio.Writer, tier string, rng *rand.Rand) {
 					ls[i] = fmtInts(randBytes(rng, rng.Intn(8)))
 				}
 				fmt.Fprintf(w, "dot %s %s [%s]\n", gs, fmtInts(name), strings.Join(ls, ","))
+			}
+			if rng.Intn(2) == 0 { // attribute callbacks: some nodes bring their own label, most do not
+				attr := func() string {
+					nm := []string{"label", "shape", "color", "style", "w", "label"}[rng.Intn(6)]
+					switch rng.Intn(3) {
+					case 0:
+						return fmt.Sprintf("[%s,s,%s]", fmtInts(strBytes(nm)), fmtInts(randBytes(rng, rng.Intn(6))))
+					case 1:
+						return fmt.Sprintf("[%s,i,%d]", fmtInts(strBytes(nm)), rng.Intn(200)-100)
+					}
+					return fmt.Sprintf("[%s,l,%s]", fmtInts(strBytes(nm)), fmtInts(strBytes([]string{"box", "red", "<b>x</b>", "1.5"}[rng.Intn(4)])))
+				}
+				list := func() string {
+					var as []string
+					for k := rng.Intn(4); k > 0; k-- {
+						as = append(as, attr())
+					}
+					return "[" + strings.Join(as, ",") + "]"
+				}
+				na, ea := make([]string, n), make([]string, n)
+				for i := 0; i < n; i++ {
+					na[i] = list()
+					var es []string
+					for range g[i] {
+						es = append(es, list())
+					}
+					ea[i] = "[" + strings.Join(es, ",") + "]"
+				}
+				nas, eas := "["+strings.Join(na, ",")+"]", "["+strings.Join(ea, ",")+"]"
+				if rng.Intn(4) == 0 {
+					nas = "-"
+				}
+				if rng.Intn(3) == 0 {
+					eas = "-"
+				}
+				lab := "-"
+				if rng.Intn(2) == 0 {
+					ls := make([]string, n)
+					for i := range ls {
+						ls[i] = fmtInts(randBytes(rng, rng.Intn(8)))
+					}
+					lab = "[" + strings.Join(ls, ",") + "]"
+				}
+				fmt.Fprintf(w, "dot %s %s %s %s %s\n", gs, fmtInts(name), lab, nas, eas)
 			}
 		}
 	}
